@@ -5,7 +5,12 @@
 //!
 //! One line per case:  "<case>\t<observation>"
 //!   case        = "lim=<n|-> det=<0|1> in=<hex> env=<p;p;..|-> prog=<p>"          (format of comb.rs)
-//!   observation = "<Ok|Err> log=<forest> || <state() outcome>" | "Panic" | "Diverged"
+//!   observation = "<Ok|Err> log=<forest> [slog=<forest>] || <state() outcome>" | "Panic" | "Diverged"
+//!                 log  = sign / atomicity of each attempt as the REAL state had them at entry (model correspondence)
+//!                 slog = sign / atomicity computed STRUCTURALLY by the interpreter (a negative look-ahead flips the sign, a
+//!                        positive one keeps it; an atomic section sets the atomicity): what the property oracle uses, so that a
+//!                        state whose look-ahead / atomicity bookkeeping is wrong is judged against the documented meaning;
+//!                        printed for ParsingError outcomes
 //!   forest      = node*,  node = "<rule>@<pos><M|F><n|p|g><a|->[" forest "]"
 //!                 (M matched / F failed; sign None / Positive / neGative; a = atomicity at entry was Atomic)
 //! Extra lines:  "CONTRACT\t<case>\t<message>"   the property oracle (a)-(d) failed on the real run
@@ -24,19 +29,23 @@ use std::num::NonZeroUsize;
 // the attempt log
 // ------------------------------------------------------------------------------------------
 #[derive(Clone, Debug)]
-struct Node { rule: R, pos: usize, matched: bool, sign: u8 /*0 None 1 Positive 2 Negative*/, atomic: bool, children: Vec<Node> }
+struct Node { rule: R, pos: usize, matched: bool, sign: u8 /*0 None 1 Positive 2 Negative*/, atomic: bool,
+              sneg: bool /*structurally under an odd number of negative look-aheads*/, satomic: bool /*structurally inside an Atomic section*/,
+              children: Vec<Node> }
 
-fn show_forest(f: &[Node], o: &mut String) {
+fn show_forest(f: &[Node], structural: bool, o: &mut String) {
     for n in f {
-        o.push_str(&format!("{}@{}{}{}{}[", n.rule, n.pos, if n.matched { 'M' } else { 'F' }, ['n', 'p', 'g'][n.sign as usize], if n.atomic { 'a' } else { '-' }));
-        show_forest(&n.children, o);
+        let (sg, at) = if structural { (if n.sneg { 'g' } else { 'n' }, n.satomic) } else { (['n', 'p', 'g'][n.sign as usize], n.atomic) };
+        o.push_str(&format!("{}@{}{}{}{}[", n.rule, n.pos, if n.matched { 'M' } else { 'F' }, sg, if at { 'a' } else { '-' }));
+        show_forest(&n.children, structural, o);
         o.push(']');
     }
 }
 
-struct LCtx<'e> { env: &'e [Prog], budget: Cell<u64>, diverged: Cell<bool>, frames: RefCell<Vec<Vec<Node>>> }
+struct LCtx<'e> { env: &'e [Prog], budget: Cell<u64>, diverged: Cell<bool>, frames: RefCell<Vec<Vec<Node>>>,
+                  negated: Cell<bool>, atom: Cell<u8> /*0 A 1 C 2 N: structural look-ahead sign and atomicity*/ }
 impl<'e> LCtx<'e> {
-    fn new(env: &'e [Prog], budget: u64) -> Self { LCtx { env, budget: Cell::new(budget), diverged: Cell::new(false), frames: RefCell::new(vec![vec![]]) } }
+    fn new(env: &'e [Prog], budget: u64) -> Self { LCtx { env, budget: Cell::new(budget), diverged: Cell::new(false), frames: RefCell::new(vec![vec![]]), negated: Cell::new(false), atom: Cell::new(2) } }
 }
 
 fn dfield<'a>(d: &'a str, name: &str) -> &'a str {
@@ -70,11 +79,12 @@ fn run_log<'i>(p: &Prog, s: St<'i>, cx: &LCtx) -> ParseResult<St<'i>> {
             let pos: usize = dfield(&d, "pos=").parse().unwrap();
             let sign = match dfield(&d, "la=") { "None" => 0u8, "Positive" => 1, _ => 2 };
             let atomic = dfield(&d, "at=") == "Atomic";
+            let (sneg, satomic) = (cx.negated.get(), cx.atom.get() == 0);
             let entered = Cell::new(false);
             let res = s.rule(*r, |s| { entered.set(true); cx.frames.borrow_mut().push(vec![]); run_log(q, s, cx) });
             if entered.get() {
                 let children = cx.frames.borrow_mut().pop().unwrap();
-                let node = Node { rule: *r, pos, matched: res.is_ok(), sign, atomic, children };
+                let node = Node { rule: *r, pos, matched: res.is_ok(), sign, atomic, sneg, satomic, children };
                 cx.frames.borrow_mut().last_mut().unwrap().push(node);
             }
             res
@@ -82,8 +92,21 @@ fn run_log<'i>(p: &Prog, s: St<'i>, cx: &LCtx) -> ParseResult<St<'i>> {
         Seq(q) => s.sequence(|s| run_log(q, s, cx)),
         Rep(q) => s.repeat(|s| run_log(q, s, cx)),
         Opt(q) => s.optional(|s| run_log(q, s, cx)),
-        Look(b, q) => s.lookahead(*b, |s| run_log(q, s, cx)),
-        Atomic(a, q) => s.atomic([Atomicity::Atomic, Atomicity::CompoundAtomic, Atomicity::NonAtomic][*a as usize], |s| run_log(q, s, cx)),
+        Look(b, q) => {
+            // documented meaning of predicates: `!e` succeeds iff e fails (the sign flips), `&e` iff e succeeds (the sign stays)
+            let old = cx.negated.get();
+            if !*b { cx.negated.set(!old); }
+            let res = s.lookahead(*b, |s| run_log(q, s, cx));
+            cx.negated.set(old);
+            res
+        }
+        Atomic(a, q) => {
+            let old = cx.atom.get();
+            cx.atom.set(*a);
+            let res = s.atomic([Atomicity::Atomic, Atomicity::CompoundAtomic, Atomicity::NonAtomic][*a as usize], |s| run_log(q, s, cx));
+            cx.atom.set(old);
+            res
+        }
         Push(q) => s.stack_push(|s| run_log(q, s, cx)),
         Roe(q) => s.restore_on_err(|s| run_log(q, s, cx)),
         Then(a, b) => run_log(a, s, cx).and_then(|s| run_log(b, s, cx)),
@@ -96,18 +119,18 @@ fn run_log<'i>(p: &Prog, s: St<'i>, cx: &LCtx) -> ParseResult<St<'i>> {
 // ------------------------------------------------------------------------------------------
 // the property oracle, evaluated on the real log against the real error
 // ------------------------------------------------------------------------------------------
-fn counts(n: &Node) -> bool { !n.atomic && (if n.sign == 2 { n.matched } else { !n.matched }) }
+fn counts(n: &Node) -> bool { !n.satomic && (if n.sneg { n.matched } else { !n.matched }) }
 fn flatten<'a>(f: &'a [Node], out: &mut Vec<&'a Node>) { for n in f { out.push(n); flatten(&n.children, out); } }
 
 /// report of an attempt under the counted reading ("only one attempt has been made during the children rules")
 fn rep_cnt(p: usize, n: &Node) -> Vec<(bool, R)> {
     let c: Vec<(bool, R)> = n.children.iter().flat_map(|k| rep_cnt(p, k)).collect();
-    if counts(n) && n.pos == p { if c.len() == 1 { c } else { vec![(n.sign == 2, n.rule)] } } else { c }
+    if counts(n) && n.pos == p { if c.len() == 1 { c } else { vec![(n.sneg, n.rule)] } } else { c }
 }
 /// report under the literal set reading ("exactly one such RULE was tried")
 fn rep_set(p: usize, n: &Node) -> Vec<(bool, R)> {
     let c: Vec<(bool, R)> = n.children.iter().flat_map(|k| rep_set(p, k)).collect();
-    if counts(n) && n.pos == p { if !c.is_empty() && c.iter().all(|x| *x == c[0]) { c } else { vec![(n.sign == 2, n.rule)] } } else { c }
+    if counts(n) && n.pos == p { if !c.is_empty() && c.iter().all(|x| *x == c[0]) { c } else { vec![(n.sneg, n.rule)] } } else { c }
 }
 fn present(c: &[(bool, R)]) -> (Vec<R>, Vec<R>) {
     let mut ps: Vec<R> = c.iter().filter(|e| !e.0).map(|e| e.1).collect();
@@ -125,12 +148,12 @@ fn oracle(log: &[Node], positives: &[R], negatives: &[R], at: usize) -> Verdict 
     let maxpos = all.iter().filter(|n| counts(n)).map(|n| n.pos).max().unwrap_or(0);
     if at != maxpos { problems.push(format!("(a) reported position {} but the furthest failed reportable attempt is at {}", at, maxpos)); }
     for r in positives {
-        if !all.iter().any(|n| n.rule == *r && n.pos == at && !n.matched && n.sign != 2 && !n.atomic) {
+        if !all.iter().any(|n| n.rule == *r && n.pos == at && !n.matched && !n.sneg && !n.satomic) {
             problems.push(format!("(b) expected rule {} has no reportable failed attempt at {}", r, at));
         }
     }
     for r in negatives {
-        if !all.iter().any(|n| n.rule == *r && n.pos == at && n.matched && n.sign == 2 && !n.atomic) {
+        if !all.iter().any(|n| n.rule == *r && n.pos == at && n.matched && n.sneg && !n.satomic) {
             problems.push(format!("(b) unexpected rule {} has no reportable negated match at {}", r, at));
         }
     }
@@ -144,7 +167,7 @@ fn oracle(log: &[Node], positives: &[R], negatives: &[R], at: usize) -> Verdict 
     let cs: Vec<(bool, R)> = log.iter().flat_map(|n| rep_set(maxpos, n)).collect();
     let (ps2, ns2) = present(&cs);
     let at_final = all.iter().filter(|n| counts(n) && n.pos == maxpos).count();
-    let negated = all.iter().any(|n| n.sign == 2 && !n.atomic);
+    let negated = all.iter().any(|n| n.sneg && !n.satomic);
     Verdict { problems, nontrivial: at_final >= 2 || negated, set_reading_differs: ps2 != sp || ns2 != sn }
 }
 
@@ -219,7 +242,8 @@ fn observe(c: &Case) -> Obs {
                 }),
             };
             let mut f = String::new();
-            show_forest(&log, &mut f);
+            show_forest(&log, false, &mut f);
+            if let Outcome::Parsing(..) = out { f.push_str(" slog="); show_forest(&log, true, &mut f); }
             obs.text = format!("{} log={} || {}", if ok { "Ok" } else { "Err" }, f, out.show());
             if let Outcome::Parsing(ref p, ref n, at) = out { obs.verdict = Some(oracle(&log, p, n, at)); }
             obs.outcome = out;
@@ -331,7 +355,20 @@ fn g_expr(rng: &mut Rng, depth: u32, i: usize, n: usize, ids: u64) -> Prog {
         };
     }
     let sub = |rng: &mut Rng| bx(g_expr(rng, depth - 1, i, n, ids));
-    match rng.weighted(&[10, 10, 4, 3, 6, 3, 2, 4, 2, 1]) {
+    match rng.weighted(&[10, 10, 4, 3, 6, 3, 2, 4, 2, 1, 6]) {
+        10 => {
+            // predicates nested 2-3 levels (positive inside negative and vice versa), mostly directly around a rule
+            let inner = if rng.chance(2, 3) && i + 1 < n { bx(Call(rng.range(i as u64 + 1, n as u64 - 1) as usize)) } else { sub(rng) };
+            match rng.below(7) {
+                0 => { let t = sub(rng); Look(false, bx(Seq(bx(Then(bx(Look(true, inner)), t))))) }   // !(&a ~ ..)
+                1 => Look(false, bx(Look(false, inner))),                                           // !(!a)
+                2 => Look(true, bx(Look(false, inner))),                                            // &(!a)
+                3 => Look(false, bx(Look(true, inner))),                                            // !(&a)
+                4 => Look(false, bx(Look(true, bx(Look(false, inner))))),                           // !(&(!a))
+                5 => Look(false, bx(Look(false, bx(Look(true, inner))))),                           // !(!(&a))
+                _ => { let t = sub(rng); Look(true, bx(Seq(bx(Then(bx(Look(false, bx(Look(true, inner)))), t))))) }   // &(!(&a) ~ ..)
+            }
+        }
         0 => { let a = sub(rng); let b = sub(rng); Seq(bx(Then(a, b))) }
         1 => { let a = sub(rng); let b = sub(rng); Else(a, b) }
         2 => { let ne = bx(Str(["a", "b", "ab"][rng.weighted(&[3, 3, 1])].to_string())); let x = sub(rng);
@@ -394,7 +431,17 @@ fn gr_expr(rng: &mut Rng, depth: u32, i: usize, n: usize) -> String {
         };
     }
     let a = gr_expr(rng, depth - 1, i, n);
-    match rng.weighted(&[10, 10, 3, 2, 2, 6, 3, 1, 1]) {
+    match rng.weighted(&[10, 10, 3, 2, 2, 6, 3, 1, 1, 6]) {
+        9 => {
+            // nested predicates, mostly directly around a rule reference
+            let a = if rng.chance(2, 3) && i + 1 < n { format!("r{}", rng.range(i as u64 + 1, n as u64 - 1)) } else { a };
+            match rng.below(7) {
+                0 => format!("!(&{} ~ {})", a, gr_expr(rng, depth - 1, i, n)),
+                1 => format!("!(!({}))", a), 2 => format!("&(!{})", a), 3 => format!("!(&{})", a),
+                4 => format!("!(&(!{}))", a), 5 => format!("!(!(&{}))", a),
+                _ => format!("&(!(&{}) ~ {})", a, gr_expr(rng, depth - 1, i, n)),
+            }
+        }
         0 => format!("({} ~ {})", a, gr_expr(rng, depth - 1, i, n)),
         1 => format!("({} | {})", a, gr_expr(rng, depth - 1, i, n)),
         2 => format!("({})*", a), 3 => format!("({})+", a), 4 => format!("({})?", a),
@@ -535,7 +582,9 @@ fn main() {
             let leaves = vec![Str("a".into()), Str("b".into()), Err, Str("".into())];
             let mut atoms: Vec<Prog> = vec![];
             for r in 1..3u32 { for l in &leaves { atoms.push(Rule(r, bx(l.clone()))); } }
-            let wraps: Vec<fn(Prog) -> Prog> = vec![|p| p, |p| Look(false, bx(p)), |p| Look(true, bx(p)), |p| Opt(bx(p)), |p| Atomic(0, bx(p)), |p| Rule(3, bx(p))];
+            let wraps: Vec<fn(Prog) -> Prog> = vec![|p| p, |p| Look(false, bx(p)), |p| Look(true, bx(p)), |p| Opt(bx(p)), |p| Atomic(0, bx(p)), |p| Rule(3, bx(p)),
+                |p| Look(false, bx(Look(true, bx(p)))), |p| Look(false, bx(Look(false, bx(p)))), |p| Look(true, bx(Look(false, bx(p)))),
+                |p| Look(false, bx(Look(true, bx(Look(false, bx(p))))))];
             let mut xs: Vec<Prog> = vec![];
             for wf in &wraps { for a in &atoms { xs.push(wf(a.clone())); } }
             let mut bodies: Vec<Prog> = xs.clone();
